@@ -418,3 +418,18 @@ Theorem discr_reduce_array_weighting_refuted :
   /\ disc_ufunc castQ as_found NPadd st_d d23w 1 MReduce [OpDisc d23w 0] kwa0 [] = Err EValue
   /\ disc_ufunc castQ repaired NPadd st_d d23w 1 MReduce [OpDisc d23w 0] kwa0 [] = Err EValue.
 Proof. exact C17.Refuted.discr_reduce_array_weighting_refuted. Qed.
+
+(* add.reduce over ANY list of axes, every rank (each axis valid for the shape
+   it is applied to -- NumPy's tuple-of-axes reduce equals reducing the axes one
+   after the other from the last to the first): the result has the size of the
+   remaining shape, the rank drops by the number of axes, and the total is
+   preserved; with all axes: the sum of all entries. *)
+Theorem add_reduce_axes_total :
+  forall (axes : list nat) (shape : list nat) (d : list R) (shape' : list nat) (d' : list R),
+  axes_valid (length shape) axes ->
+  length d = prodn shape ->
+  reduce_axes BAdd shape axes d = Some (shape', d') ->
+  length d' = prodn shape' /\ sumf d' = sumf d
+  /\ length shape' = (length shape - length axes)%nat.
+Proof. exact reduce_axes_add_total. Qed.
+Print Assumptions add_reduce_axes_total.
